@@ -391,9 +391,11 @@ class Corpus(object):
 # prefix classes x register/memory ModRM forms).  It makes the frequent findings and any break of a
 # table class visible in every run, whatever VERIF_SEED; the seed-dependent generators explore
 # beyond it.
-WALK_K = {"x86_16": 8, "x86_32": 8, "x86_64": 8, "arm": 1, "armt": 6, "aarch64": 8, "mips32": 6,
+WALK_K = {"x86_16": 10, "x86_32": 10, "x86_64": 10, "arm": 1, "armt": 6, "aarch64": 8, "mips32": 6,
           "ppc32": 3, "msp430": 20, "mep": 6, "sh4": 4}
 X86_WALK_PFX = [(), (0x66,), (0x67,), (0xF3,)]
+# variants 8 and 9 of every x86 class: the size prefixes repeated (a repeated prefix means what one means)
+X86_WALK_PFX_REPEATED = [(0x66, 0x66), (0x67, 0x67)]
 
 
 # The seed-dependent generators draw from a *closed* set of streams: every stream has been swept
@@ -477,6 +479,9 @@ def walk_candidate(spec, ci, v, rnd):
         if fill is not None:
             fields = [((((1 << l) - 1) if fill else 0) if (val is None and l and not (spec.unit == 1 and fname == "mod")) else val,
                        l, fname) for (val, l, fname) in fields]
+    elif spec.unit == 1 and v >= 2 * len(X86_WALK_PFX):
+        force = {"mod": 3 if (ci + rnd) % 2 == 0 else (ci + rnd) % 3}
+        pre = bytes(bytearray(X86_WALK_PFX_REPEATED[(v - 2 * len(X86_WALK_PFX)) % len(X86_WALK_PFX_REPEATED)]))
     elif spec.unit == 1:
         force = {"mod": 3 if (v // len(X86_WALK_PFX)) % 2 == 0 else (ci + rnd) % 3}
         pre = bytes(bytearray(X86_WALK_PFX[v % len(X86_WALK_PFX)]))
